@@ -378,7 +378,9 @@ def check_cli_case(ctx, rng, index):
                 else:
                     if index % 2 == 0:
                         # the same output file name used again (as a PEST model run does): the file
-                        # must hold the output of the last run only
+                        # must hold the output of the last run only -- also when what was there is longer
+                        with open(out, 'w') as f:
+                            f.write('stale line of an earlier, longer output\n' * 400)
                         data.cli(argv + ['-o', out])
                         import gc
                         gc.collect()
